@@ -4,17 +4,20 @@
      nuc_grad_method picks  (RKS | UKS) x (density fitting on | off)  ->  one of four classes
      get_vxc / get_vxc_nldf / *_full_response raise NotImplementedError when the functional has
      SDMX features (or fractional-Laplacian features); everything else is supported, with or
-     without the grid-response terms.
+     without the grid-response terms.  The VV10 nonlocal-correlation term (ks.nlc = "vv10") is an additive part of the
+     energy with its own grid (nlcgrids) and its own fixed-grid / grid-response force routines; it is crossed with
+     the representative families (NlcFamilies).
    The protocol of a gradient calculation: SCF must have converged before the gradient object is
    asked; an unsupported combination must be refused BEFORE any number is returned. *)
 EXTENDS Integers, FiniteSets, TLC
-CONSTANTS Families, Interps
+CONSTANTS Families, Interps, NlcFamilies
 VARIABLES cfg, stage, outcome
 vars == <<cfg, stage, outcome>>
-Cfgs == [spin : {"R", "U"}, df : BOOLEAN, fam : Families, grid_response : BOOLEAN, interp : Interps]
+Cfgs == [spin : {"R", "U"}, df : BOOLEAN, fam : Families, grid_response : BOOLEAN, interp : Interps, nlc : BOOLEAN]
 HasSDMX(f) == f \in {"sdmx", "nldf_j+sdmx"}
 HasNLDF(f) == f \in {"nldf_j", "nldf_i", "nldf_ij", "nldf_k", "nldf_j+sdmx"}
-Relevant(c) == HasNLDF(c.fam) \/ c.interp = "onsite_direct"        \* the interpolator only matters with NLDFs
+Relevant(c) == /\ (HasNLDF(c.fam) \/ c.interp = "onsite_direct")        \* the interpolator only matters with NLDFs
+               /\ (c.nlc => (c.fam \in NlcFamilies /\ c.interp = "onsite_direct"))
 Supported(c) == ~HasSDMX(c.fam)
 GradClass(c) == <<IF c.spin = "R" THEN "rks_grad" ELSE "uks_grad", IF c.df THEN "DFGradients" ELSE "Gradients">>
 Init == cfg = <<>> /\ stage = "none" /\ outcome = <<>>
